@@ -17,13 +17,15 @@ def classify(cls, line, events):
         # walk back to the Reset: a re-join of a present address duplicates, a leave drops siblings
         i = line - 1
         present = {}
-        dup = drop = False
+        dup = drop = readdr = False
         j = i
         while j >= 0 and events[j]["a"] != "Reset":
             j -= 1
         for e in events[j + 1:i + 1]:
             if e["a"] == "Join":
-                if e["addr"] in present:
+                if e["addr"] in present and present[e["addr"]] != e["node"]:
+                    readdr = True
+                elif e["addr"] in present:
                     dup = True
                 present[e["addr"]] = e["node"]
             elif e["a"] == "Leave":
@@ -32,6 +34,8 @@ def classify(cls, line, events):
                     drop = True
             elif e["a"] == "Empty":
                 present = {}
+        if readdr and not dup and not drop:
+            return "readdress-stale"
         if dup and not drop:
             return "rejoin-duplicate"
         if drop and not dup:
